@@ -348,9 +348,19 @@ const cf5New = `			var childCtx context.Context
 
 var cf5 = false
 var cf5Applied = false
+var overDir = "" // directory of replacement sources (mutants): <overDir>/<path relative to repo> replaces the repo file
+var repoDir = "/repo"
 
 func process(fset *token.FileSet, path string) (out []byte, counts map[string]int, errs []string) {
-	src, err := os.ReadFile(path)
+	readFrom := path
+	if overDir != "" {
+		if rel, err := filepath.Rel(repoDir, path); err == nil {
+			if _, err := os.Stat(filepath.Join(overDir, rel)); err == nil {
+				readFrom = filepath.Join(overDir, rel)
+			}
+		}
+	}
+	src, err := os.ReadFile(readFrom)
 	if err != nil {
 		return nil, nil, []string{err.Error()}
 	}
@@ -418,6 +428,9 @@ func process(fset *token.FileSet, path string) (out []byte, counts map[string]in
 	}
 	errs = append(errs, r.fatal...)
 	if !r.used && !syncUsed && !errgUsed {
+		if readFrom != path {
+			return src, r.counts, errs // replacement without constructs: overlay the replacement as it is
+		}
 		return nil, r.counts, errs
 	}
 	for _, im := range f.Imports {
@@ -465,8 +478,10 @@ func main() {
 	profile := flag.String("profile", "check", "instrumentation profile")
 	repo := flag.String("repo", "/repo", "keto working tree")
 	out := flag.String("out", "", "output directory")
+	flag.StringVar(&overDir, "over", "", "directory with replacement sources (relative paths as in the repo)")
 	flag.BoolVar(&cf5, "cf5", false, "apply the counterfactual patch for KF-C01-1 (path-local visited sets)")
 	flag.Parse()
+	repoDir = *repo
 	dirs, ok := profiles[*profile]
 	if !ok || *out == "" {
 		fmt.Println("usage: vinstr -profile check|config -repo /repo -out <dir>")
